@@ -12,13 +12,22 @@ def inLock : PC → Bool
   | .recheck => true
   | .held => true
   | .rel 0 => true
+  | .closing _ => true
+  | _ => false
+
+/-- the contender holds the directory: AcquireDirLock returned, Release has not started
+(a DB that is closing its storage components still holds it) -/
+def holding : PC → Bool
+  | .held => true
+  | .closing _ => true
   | _ => false
 
 structure Inv (s : St) : Prop where
   lockThr : ∀ i tid, s.lockedBy i = some tid → ∃ t, s.thr tid = some t ∧ t.fd = i ∧ inLock t.pc = true
   thrLock : ∀ tid t, s.thr tid = some t → inLock t.pc = true → s.lockedBy t.fd = some tid
-  heldName : ∀ tid t, s.thr tid = some t → t.pc = .held → s.name = some t.fd
-  fin : ∀ tid t, s.thr tid = some t → (t.pc = .done → t.handle = false) ∧ (∀ k, t.pc ≠ .rerel k)
+  heldName : ∀ tid t, s.thr tid = some t → holding t.pc = true → s.name = some t.fd
+  fin : ∀ tid t, s.thr tid = some t → (t.pc = .done → t.handle = false) ∧ (∀ k, t.pc ≠ .rerel k) ∧
+    (∀ k, t.pc ≠ .closingAfter k)
 
 theorem Inv.trans {s s' : St} {tid : Nat} {t t' : Thr} (h : Inv s) (ht : s.thr tid = some t)
     (hthr : s'.thr = upd s.thr tid (some t'))
@@ -26,9 +35,9 @@ theorem Inv.trans {s s' : St} {tid : Nat} {t t' : Thr} (h : Inv s) (ht : s.thr t
       ((s.lockedBy i = none ∨ s.lockedBy i = some tid) ∧ (s'.lockedBy i = none ∨ s'.lockedBy i = some tid)))
     (hmine : ∀ i, s'.lockedBy i = some tid → t'.fd = i ∧ inLock t'.pc = true)
     (hmine' : inLock t'.pc = true → s'.lockedBy t'.fd = some tid)
-    (hname : s'.name = s.name ∨ (∀ j u, j ≠ tid → s.thr j = some u → u.pc ≠ .held))
-    (hheld : t'.pc = .held → s'.name = some t'.fd)
-    (hfin : (t'.pc = .done → t'.handle = false) ∧ (∀ k, t'.pc ≠ .rerel k)) : Inv s' := by
+    (hname : s'.name = s.name ∨ (∀ j u, j ≠ tid → s.thr j = some u → holding u.pc = false))
+    (hheld : holding t'.pc = true → s'.name = some t'.fd)
+    (hfin : (t'.pc = .done → t'.handle = false) ∧ (∀ k, t'.pc ≠ .rerel k) ∧ (∀ k, t'.pc ≠ .closingAfter k)) : Inv s' := by
   have hget : ∀ j u, s'.thr j = some u → (j = tid ∧ u = t') ∨ (j ≠ tid ∧ s.thr j = some u) := by
     intro j u hu
     rw [hthr] at hu
@@ -60,7 +69,7 @@ theorem Inv.trans {s s' : St} {tid : Nat} {t t' : Thr} (h : Inv s) (ht : s.thr t
     · exact hheld hp
     · rcases hname with e | e
       · rw [e]; exact h.heldName j u hu' hp
-      · exact absurd hp (e j u hj hu')
+      · rw [e j u hj hu'] at hp; cases hp
   · intro j u hu
     rcases hget j u hu with ⟨rfl, rfl⟩ | ⟨hj, hu'⟩
     · exact hfin
@@ -86,7 +95,8 @@ theorem Inv.mineIs {s : St} (h : Inv s) {tid : Nat} {t : Thr} (ht : s.thr tid = 
 /-- the record of the stepping thread after effect number `e` of Release -/
 def relThr (c : DLCfg) (t : Thr) (eff : Eff) (e : Nat) : Thr :=
   { t with
-    pc := if (!decide (e + 1 < (effects c.releaseOrder).length)) = true then PC.done else PC.rel e,
+    pc := if (!decide (e + 1 < (effects c.releaseOrder).length)) = true then
+        (if (t.isDB && !c.closeReleasesLast) = true then PC.closingAfter 1 else PC.done) else PC.rel e,
     failUnlink := if eff = .remove then false else t.failUnlink,
     err := t.err || (decide (eff = .remove) && t.failUnlink),
     handle := if (!decide (e + 1 < (effects c.releaseOrder).length)) = true then
@@ -112,9 +122,46 @@ theorem relStep_fail (c : DLCfg) (s : St) (tid : Nat) (t : Thr) (e : Nat)
   rw [he]
   simp only [hf, decide_true, Bool.and_self, if_true]
 
+private theorem finOf (pc : PC) (handle : Bool) (h1 : pc ≠ .done) (h2 : ∀ k, pc ≠ .rerel k)
+    (h3 : ∀ k, pc ≠ .closingAfter k) :
+    (pc = .done → handle = false) ∧ (∀ k, pc ≠ .rerel k) ∧ (∀ k, pc ≠ .closingAfter k) :=
+  ⟨fun h => absurd h h1, h2, h3⟩
+
+/-- the first effect of Release (the unlink) by a contender that holds the directory -/
+theorem Inv.releaseStart {c : DLCfg} (hro : c.releaseOrder = .removeUnlockClose) {s s' : St} {tid : Nat}
+    {t : Thr} (h : Inv s) (ht : s.thr tid = some t) (hhold : holding t.pc = true)
+    (hs : relStep c s tid t 0 = some s') : Inv s' := by
+  have hmine := h.thrLock tid t ht (by cases hp : t.pc <;> simp_all [holding, inLock])
+  have hnm := h.heldName tid t ht hhold
+  have hpc : (relThr c t .remove 0).pc = .rel 0 := by simp [relThr, hro, effects]
+  have hfd : (relThr c t .remove 0).fd = t.fd := rfl
+  have hothers : ∀ j u, j ≠ tid → s.thr j = some u → holding u.pc = false := by
+    intro j u hj hu
+    cases hh : holding u.pc
+    · rfl
+    · exfalso
+      have h1 := h.heldName j u hu hh
+      rw [hnm] at h1
+      have h2 := h.thrLock j u hu (by cases hp : u.pc <;> simp_all [holding, inLock])
+      rw [← Option.some.inj h1, hmine] at h2
+      exact hj (Option.some.inj h2).symm
+  have hfin' := finOf (relThr c t .remove 0).pc (relThr c t .remove 0).handle (by rw [hpc]; simp)
+    (by rw [hpc]; simp) (by rw [hpc]; simp)
+  cases hfu : t.failUnlink
+  · rw [relStep_ok c s tid t 0 .remove (by simp [hro, effects]) (Or.inr hfu)] at hs
+    cases hs
+    exact Inv.trans (t' := relThr c t .remove 0) h ht rfl (fun _ => Or.inl rfl)
+      (fun i hi => ⟨hfd ▸ h.mineIs ht i hi, by rw [hpc]; simp [inLock]⟩)
+      (fun _ => hfd ▸ hmine) (Or.inr hothers) (by rw [hpc]; simp [holding]) hfin'
+  · rw [relStep_fail c s tid t 0 (by simp [hro, effects]) hfu] at hs
+    cases hs
+    exact Inv.trans (t' := relThr c t .remove 0) h ht rfl (fun _ => Or.inl rfl)
+      (fun i hi => ⟨hfd ▸ h.mineIs ht i hi, by rw [hpc]; simp [inLock]⟩)
+      (fun _ => hfd ▸ hmine) (Or.inl rfl) (by rw [hpc]; simp [holding]) hfin'
+
 theorem Inv.step_thr {c : DLCfg} (hc : c.Good) {s s' : St} {tid : Nat} {t : Thr} (h : Inv s)
     (ht : s.thr tid = some t) (hs : stepThr c s tid t = some s') : Inv s' := by
-  obtain ⟨hro, hrc, hce⟩ := hc
+  obtain ⟨hro, hrc, hce, hcl⟩ := hc
   have hfin := h.fin tid t ht
   unfold stepThr at hs
   cases hp : t.pc <;> simp only [hp] at hs
@@ -124,20 +171,22 @@ theorem Inv.step_thr {c : DLCfg} (hc : c.Good) {s s' : St} {tid : Nat} {t : Thr}
     | some i =>
       simp only [hn] at hs; cases hs
       refine Inv.trans h ht rfl (fun _ => Or.inl rfl) (fun i hi => absurd hi (hnm i))
-        (by simp [inLock]) (Or.inl hn.symm) (by simp) (by simp)
+        (by simp [inLock]) (Or.inl hn.symm) (by simp [holding]) (by simp)
     | none =>
       simp only [hn] at hs; cases hs
       refine Inv.trans h ht rfl (fun _ => Or.inl rfl) (fun i hi => absurd hi (hnm i))
-        (by simp [inLock]) (Or.inr ?_) (by simp) (by simp)
-      intro j u _ hu hheld
-      have := h.heldName j u hu hheld
-      rw [hn] at this; cases this
+        (by simp [inLock]) (Or.inr ?_) (by simp [holding]) (by simp)
+      intro j u _ hu
+      cases hh : holding u.pc
+      · rfl
+      · have := h.heldName j u hu hh
+        rw [hn] at this; cases this
   · -- flock
     have hnm := h.notMine ht (by simp [hp, inLock])
     cases hl : s.lockedBy t.fd with
     | none =>
       simp only [hl] at hs; cases hs
-      refine Inv.trans h ht rfl ?_ ?_ ?_ (Or.inl rfl) (by simp) (by simp)
+      refine Inv.trans h ht rfl ?_ ?_ ?_ (Or.inl rfl) (by simp [holding]) (by simp)
       · intro i
         by_cases hi : i = t.fd
         · subst hi; right; exact ⟨Or.inl hl, Or.inr (by simp)⟩
@@ -152,12 +201,12 @@ theorem Inv.step_thr {c : DLCfg} (hc : c.Good) {s s' : St} {tid : Nat} {t : Thr}
     | some u =>
       simp only [hl] at hs; cases hs
       exact Inv.trans h ht rfl (fun _ => Or.inl rfl) (fun i hi => absurd hi (hnm i))
-        (by simp [inLock]) (Or.inl rfl) (by simp) (by simp)
+        (by simp [inLock]) (Or.inl rfl) (by simp [holding]) (by simp)
   · -- recheck
     have hmine := h.thrLock tid t ht (by simp [hp, inLock])
     split at hs
     · cases hs
-      refine Inv.trans h ht rfl ?_ ?_ (by simp [inLock]) (Or.inl rfl) (by simp) (by simp)
+      refine Inv.trans h ht rfl ?_ ?_ (by simp [inLock]) (Or.inl rfl) (by simp [holding]) (by simp)
       · intro i
         by_cases hi : i = t.fd
         · subst hi; right; exact ⟨Or.inr hmine, Or.inl (by simp)⟩
@@ -177,29 +226,14 @@ theorem Inv.step_thr {c : DLCfg} (hc : c.Good) {s s' : St} {tid : Nat} {t : Thr}
         intro hne; exact hcond ⟨hrc, hne⟩
       exact Inv.trans h ht rfl (fun _ => Or.inl rfl) (fun i hi => ⟨h.mineIs ht i hi, by simp [inLock]⟩)
         (fun _ => hmine) (Or.inl rfl) (fun _ => hname) (by simp)
-  · -- held: effect 0 of Release = remove (it may fail: the name then stays)
+  · -- held: Release is called (plain DirLock user) or DB.Close starts closing the storage
     have hmine := h.thrLock tid t ht (by simp [hp, inLock])
-    have hnm := h.heldName tid t ht hp
-    have hpc : (relThr c t .remove 0).pc = .rel 0 := by simp [relThr, hro, effects]
-    have hfd : (relThr c t .remove 0).fd = t.fd := rfl
-    have hothers : ∀ j u, j ≠ tid → s.thr j = some u → u.pc ≠ .held := by
-      intro j u hj hu hheld
-      have h1 := h.heldName j u hu hheld
-      rw [hnm] at h1
-      have h2 := h.thrLock j u hu (by simp [hheld, inLock])
-      rw [← Option.some.inj h1, hmine] at h2
-      exact hj (Option.some.inj h2).symm
-    cases hfu : t.failUnlink
-    · rw [relStep_ok c s tid t 0 .remove (by simp [hro, effects]) (Or.inr hfu)] at hs
-      cases hs
-      exact Inv.trans (t' := relThr c t .remove 0) h ht rfl (fun _ => Or.inl rfl)
-        (fun i hi => ⟨hfd ▸ h.mineIs ht i hi, by rw [hpc]; simp [inLock]⟩)
-        (fun _ => hfd ▸ hmine) (Or.inr hothers) (by rw [hpc]; simp) (by rw [hpc]; simp)
-    · rw [relStep_fail c s tid t 0 (by simp [hro, effects]) hfu] at hs
-      cases hs
-      exact Inv.trans (t' := relThr c t .remove 0) h ht rfl (fun _ => Or.inl rfl)
-        (fun i hi => ⟨hfd ▸ h.mineIs ht i hi, by rw [hpc]; simp [inLock]⟩)
-        (fun _ => hfd ▸ hmine) (Or.inl rfl) (by rw [hpc]; simp) (by rw [hpc]; simp)
+    have hnm := h.heldName tid t ht (by simp [hp, holding])
+    split at hs
+    · cases hs
+      exact Inv.trans h ht rfl (fun _ => Or.inl rfl) (fun i hi => ⟨h.mineIs ht i hi, by simp [inLock]⟩)
+        (fun _ => hmine) (Or.inl rfl) (fun _ => hnm) (by simp)
+    · exact Inv.releaseStart hro h ht (by simp [hp, holding]) hs
   · -- rel k: effect k+1
     rename_i k
     cases k with
@@ -210,7 +244,8 @@ theorem Inv.step_thr {c : DLCfg} (hc : c.Good) {s s' : St} {tid : Nat} {t : Thr}
       have hpc : (relThr c t .unlock 1).pc = .rel 1 := by simp [relThr, hro, effects]
       have hfd : (relThr c t .unlock 1).fd = t.fd := rfl
       cases hs
-      refine Inv.trans (t' := relThr c t .unlock 1) h ht rfl ?_ ?_ (by rw [hpc]; simp [inLock]) (Or.inl rfl) (by rw [hpc]; simp) (by rw [hpc]; simp)
+      refine Inv.trans (t' := relThr c t .unlock 1) h ht rfl ?_ ?_ (by rw [hpc]; simp [inLock]) (Or.inl rfl)
+        (by rw [hpc]; simp [holding]) (finOf _ _ (by rw [hpc]; simp) (by rw [hpc]; simp) (by rw [hpc]; simp))
       · intro i
         by_cases hi : i = t.fd
         · subst hi; right; exact ⟨Or.inr hmine, Or.inl (by simp [applyEff])⟩
@@ -229,14 +264,15 @@ theorem Inv.step_thr {c : DLCfg} (hc : c.Good) {s s' : St} {tid : Nat} {t : Thr}
         -- close: the lock is already gone; Release returns and clears its handle
         have hnm := h.notMine ht (by simp [hp, inLock])
         rw [relStep_ok c s tid t 2 .close (by simp [hro, effects]) (Or.inl (by simp))] at hs
-        have hpc : (relThr c t .close 2).pc = .done := by simp [relThr, hro, effects]
+        have hpc : (relThr c t .close 2).pc = .done := by simp [relThr, hro, effects, hcl]
         have hh : (relThr c t .close 2).handle = false := by simp [relThr, hro, effects, hce]
         cases hs
-        have hcl : applyEff s tid t .close = s := by
+        have hcl' : applyEff s tid t .close = s := by
           simp [applyEff, hnm t.fd]
-        rw [hcl]
+        rw [hcl']
         exact Inv.trans (t' := relThr c t .close 2) h ht rfl (fun _ => Or.inl rfl) (fun i hi => absurd hi (hnm i))
-          (by rw [hpc]; simp [inLock]) (Or.inl rfl) (by rw [hpc]; simp) ⟨fun _ => hh, by rw [hpc]; simp⟩
+          (by rw [hpc]; simp [inLock]) (Or.inl rfl) (by rw [hpc]; simp [holding])
+          ⟨fun _ => hh, by rw [hpc]; simp, by rw [hpc]; simp⟩
       | succ k =>
         simp [relStep, hro, effects] at hs
   · cases hs
@@ -247,7 +283,20 @@ theorem Inv.step_thr {c : DLCfg} (hc : c.Good) {s s' : St} {tid : Nat} {t : Thr}
     exact h
   · -- rerel: unreachable
     rename_i k
-    exact absurd hp (hfin.2 k)
+    exact absurd hp (hfin.2.1 k)
+  · -- closing k: a storage component is closed while the lock is held; then Release
+    rename_i k
+    have hmine := h.thrLock tid t ht (by simp [hp, inLock])
+    have hnm := h.heldName tid t ht (by simp [hp, holding])
+    simp only [hcl, if_true] at hs
+    split at hs
+    · cases hs
+      exact Inv.trans h ht rfl (fun _ => Or.inl rfl) (fun i hi => ⟨h.mineIs ht i hi, by simp [inLock]⟩)
+        (fun _ => hmine) (Or.inl rfl) (fun _ => hnm) (by simp)
+    · exact Inv.releaseStart hro h ht (by simp [hp, holding]) hs
+  · -- closingAfter: unreachable (the lock is released last)
+    rename_i k
+    exact absurd hp (hfin.2.2 k)
 
 theorem Inv.spawn {s : St} (hi : Inv s) (tid : Nat) (t0 : Thr) (h0 : t0.pc = .open_)
     (hfree : s.thr tid = none) : Inv { s with thr := upd s.thr tid (some t0) } := by
@@ -264,7 +313,7 @@ theorem Inv.spawn {s : St} (hi : Inv s) (tid : Nat) (t0 : Thr) (h0 : t0.pc = .op
   · intro j u hu hp
     have hu' : upd s.thr tid (some t0) j = some u := hu
     by_cases hj : j = tid
-    · subst hj; simp at hu'; subst hu'; rw [h0] at hp; cases hp
+    · subst hj; simp at hu'; subst hu'; rw [h0] at hp; simp [holding] at hp
     · rw [upd_other _ _ _ _ hj] at hu'; exact hi.heldName j u hu' hp
   · intro j u hu
     have hu' : upd s.thr tid (some t0) j = some u := hu
@@ -284,6 +333,11 @@ theorem Inv.reachable {c : DLCfg} (hc : c.Good) (s : St) (hr : Reachable (sys c)
       · rename_i hfree; cases hs; exact Inv.spawn hi tid _ rfl hfree
       · cases hs
     | spawnF tid =>
+      simp only [DirLock.step] at hs
+      split at hs
+      · rename_i hfree; cases hs; exact Inv.spawn hi tid _ rfl hfree
+      · cases hs
+    | spawnDB tid =>
       simp only [DirLock.step] at hs
       split at hs
       · rename_i hfree; cases hs; exact Inv.spawn hi tid _ rfl hfree
